@@ -25,6 +25,7 @@ func checkC12(r *Run) {
 	checkNoOtherDecoder(r)
 	checkDecoderNilFlow(r)
 	checkWriterReader(r)
+	checkEncodingDeterminism(r)
 }
 
 func serdePkg(r *Run) *FuncDecl { return r.Prog.LookupFunc("pkg/base/serde.UnmarshalCBOR") }
